@@ -176,6 +176,16 @@ def conditionExpr (c : CCtx) : Expr → Except CondErr (Option Expr × TimeRange
   | .boolean b => .ok (some (.boolean b), {})
   | e => .error (.invalidCond e.print)
 
+/-- "Remove top level parentheses". -/
+def stripTopParen : Option Expr → Option Expr
+  | some (.paren inner) => some inner
+  | r => r
+
+/-- "If the condition is true, return nil instead to indicate there is no condition." -/
+def dropTrue : Option Expr → Option Expr
+  | some (.boolean true) => none
+  | r => r
+
 /-- `ConditionExpr(cond, valuer)`; `cond = none` is the nil condition. -/
 def ConditionExpr (c : CCtx) (cond : Option Expr) : Except CondErr (Option Expr × TimeRange) :=
   match cond with
@@ -183,13 +193,6 @@ def ConditionExpr (c : CCtx) (cond : Option Expr) : Except CondErr (Option Expr 
   | some e =>
     match conditionExpr c e with
     | .error err => .error err
-    | .ok (res, tr) =>
-      let res1 := match res with
-        | some (.paren inner) => some inner
-        | r => r
-      let res2 := match res1 with
-        | some (.boolean true) => none
-        | r => r
-      .ok (res2, tr)
+    | .ok (res, tr) => .ok (dropTrue (stripTopParen res), tr)
 
 end InfluxQL
